@@ -1768,6 +1768,19 @@ impl Element {
         // make sure compatibility checks are performed with the element type used in the target version
         let elemtype_new = self.recalc_element_type(target_version);
 
+        // an element without a SHORT-NAME cannot be used in a version in which its type requires one
+        if elemtype_new.is_named_in_version(target_version) && self.get_sub_element(ElementName::ShortName).is_none() {
+            let version_mask = autosar_data_specification::expand_version_mask(u32::MAX)
+                .into_iter()
+                .filter(|ver| !self.recalc_element_type(*ver).is_named_in_version(*ver))
+                .fold(0, |mask, ver| mask | ver as u32);
+            overall_version_mask &= version_mask;
+            compat_errors.push(CompatibilityError::IncompatibleElement {
+                element: self.clone(),
+                version_mask,
+            });
+        }
+
         // check the compatibility of all the attributes in this element
         {
             let element = self.0.read();
